@@ -29,7 +29,7 @@ def make_case(seed: int, tier: str, prop: str, opts=None) -> Dict[str, Any]:
     if prop == "C05" and fam < 2 and not force:
         # completion also for same-time loops around the bound ...
         sc = gen.gen_loop(seed, tier)
-    elif prop == "C05" and fam < 4 and not force:
+    elif ((prop == "C05" and fam < 4) or (prop in ("C07", "C01", "C02") and fam in (13, 14))) and not force:
         # ... and for plants with async_requests agents (legal requests only)
         sc = gen.gen_async(seed, tier)
         sc.pop("illegal_async", None)
@@ -64,9 +64,9 @@ def make_case(seed: int, tier: str, prop: str, opts=None) -> Dict[str, Any]:
     k = opts.get("schedules", 3 if tier == "quick" else 6)
     scheds = [gen.gen_schedule(seed, sc, j) for j in range(k)]
     case = {"scenario": sc, "schedules": scheds}
-    if prop == "C10" and fam == 15 and not force and len(sc["sims"]) >= 2:
-        # a simulator fails inside one of its steps: while run() unwinds, nobody it feeds into it may
-        # be released (the steps it never finished stay outstanding)
+    if prop in ("C10", "C01") and fam == 15 and not force and len(sc["sims"]) >= 2:
+        # a simulator fails inside one of its steps: while run() unwinds, nobody that feeds it (C10) or
+        # is fed by it (C01) may be released - the step it never finished stays outstanding
         import random as _r
         rng = _r.Random(h64(seed, "c10fault"))
         case["faults"] = [{"sid": rng.choice(sc["sims"])["sid"], "req": rng.choice([1, 2, 3, 4, 5, 6, 7, 8]),
